@@ -303,10 +303,10 @@ ATTR_FORMAT = 'format'  #: indicates the `ATTR_TYPE` format used by :class:`Hdf5
 def valid_hdf5_path_component(name):
     """Determine if `name` is a valid HDF5 path component.
 
-    Conditions: String, no ``'/'``, and overall ``name != '.'``.
+    Conditions: String, no ``'/'``, not empty, and overall ``name != '.'``.
     """
     # unicode is encoded correctly by h5py and works - amazing!
-    return isinstance(name, str) and '/' not in name and name != '.'
+    return isinstance(name, str) and '/' not in name and name != '.' and name != ''
 
 
 class Hdf5FormatError(Exception):
